@@ -56,7 +56,7 @@ type Ctx struct {
 	Tier   string
 	Seed   int64
 	Ev     *ev.E
-	Work   string // scratch dir, wiped at start
+	Work   string      // scratch dir, wiped at start
 	Replay *ReplayFile // non-nil in replay mode
 
 	mu         sync.Mutex
